@@ -342,6 +342,11 @@ impl BuildJob<'_> {
         let mut dof = state::File::from_name(&mut ptx, &df.do_dir.join(&df.do_file), true)?;
         dof.set_static(ptx.state().env())?;
         dof.save(&mut ptx)?;
+        // From the commit below until the result is recorded, the rows of the
+        // target and of its dependencies are in mid-build: tell the dirtiness
+        // walks of other processes (see deps.rs).
+        let mut build_lock = ptx.state().new_lock(sf.id() + state::BUILD_LOCK_MAGIC);
+        build_lock.try_lock()?;
         let ps = ptx.commit().map_err(RedoError::opaque_error)?;
         #[cfg(feature = "verif-hooks")]
         crate::verif::lock_event("job_start", sf.id(), t.as_str());
@@ -461,6 +466,7 @@ impl BuildJob<'_> {
         let out_file = out_file.take().unwrap();
         Ok(Box::pin(async move {
             let _lock = lock; // ensure we hold the lock until after state has been recorded
+            let _build_lock = build_lock;
             let mut rv = job.await;
             let mut ps = ps_ref.borrow_mut();
             let mut ptx = match ProcessTransaction::new(*ps, TransactionBehavior::Immediate) {
